@@ -612,6 +612,54 @@ example : (ptaskReports 0 [{ file := ["e", "progmod.py"], name := "work", tag :=
                            { file := ["e", "progmod.py"], name := "both", tag := 2, hasMeta := true, mixedPrio := true }]).map Report.key
     = [some (["e", "progmod.py"], "work"), none] := by decide
 
+/-! ## Tasks defined by a running task generator -/
+
+theorem childReports_clean (path : Path) (gen : Nat) : ∀ (cs : List Child) (i : Nat),
+    (childReports path gen i cs).any Report.isFail = false →
+    (childReports path gen i cs).filter (fun r => !r.isFail) = childReports path gen i cs ∧
+    (childReports path gen i cs).length = cs.length ∧ ∀ c ∈ cs, c.uncollectable = false := by
+  intro cs
+  induction cs with
+  | nil => intro i _; simp [childReports]
+  | cons c rest ih =>
+    intro i h
+    unfold childReports at h ⊢
+    cases hc : c.uncollectable with
+    | true => simp [hc, Report.isFail] at h
+    | false =>
+      simp only [hc, Bool.false_eq_true, ↓reduceIte, List.any_cons, Report.isFail, Bool.false_or] at h
+      obtain ⟨h1, h2, h3⟩ := ih (i + 1) h
+      simp only [Bool.false_eq_true, ↓reduceIte]
+      have hs : (!(Report.succ path c.name (gen, i)).isFail) = true := rfl
+      refine ⟨by rw [List.filter_cons, if_pos hs, h1], by simp [h2], ?_⟩
+      intro c' hc'
+      rcases List.mem_cons.1 hc' with rfl | hc'
+      · exact hc
+      · exact h3 c' hc'
+
+/-- **C13_generated_total** (true since fix f1fcb9a, F35; conditional on the translator fact that the generator branch
+raises on a failed child report). Whatever children a task generator defines while it runs: either the generator
+fails (so the build does not end with exit code 0), or every child — none of them uncollectable — is collected, in
+order, exactly once; no generated task is silently dropped. -/
+theorem C13_generated_total (hfact : genRaisesOnFailedChild = true) (path : Path) (gen : Nat) (cs : List Child) :
+    generatorCollect genRaisesOnFailedChild (childReports path gen 0 cs) = none ∨
+    (generatorCollect genRaisesOnFailedChild (childReports path gen 0 cs) = some (childReports path gen 0 cs) ∧
+      (childReports path gen 0 cs).length = cs.length ∧ ∀ c ∈ cs, c.uncollectable = false) := by
+  unfold generatorCollect
+  rw [hfact]
+  cases h : (childReports path gen 0 cs).any Report.isFail with
+  | true => left; simp
+  | false =>
+    right
+    obtain ⟨h1, h2, h3⟩ := childReports_clean path gen cs 0 h
+    exact ⟨by simp [h1], h2, h3⟩
+
+/-- Without the raise (the code before f1fcb9a) an uncollectable child vanishes: F35 in the model. -/
+example : generatorCollect false (childReports ["r", "task_m.py"] 1 0 [{ name := "a", tag := 1 }, { name := "b", tag := 2, uncollectable := true }])
+    = some [Report.succ ["r", "task_m.py"] "a" (1, 0)] ∧
+    generatorCollect true (childReports ["r", "task_m.py"] 1 0 [{ name := "a", tag := 1 }, { name := "b", tag := 2, uncollectable := true }]) = none := by
+  constructor <;> rfl
+
 /-- Non-vacuity: a helper module's `@task` function is left over → exit 3; a duplicate id → exit 3. -/
 def leftEnv : Env :=
   { fs := { pre := ["r"], tree := .dir "proj" [.file "task_m.py", .file "helper_a.py"] },
